@@ -4,7 +4,7 @@ premises).  Run time: FAULT ENUMERATION on the implementation (test support for 
 a record-aware man-in-the-middle between two socketpairs; the oracle is the property text."""
 from vlib import core
 
-WRAP = "-Wl,--wrap=tls_record_send,--wrap=tls_record_recv,--wrap=sm2_do_ecdh,--wrap=tls_pre_master_secret_generate"
+WRAP = "-Wl,--wrap=tls_record_send,--wrap=tls_record_recv,--wrap=sm2_do_ecdh,--wrap=tls_pre_master_secret_generate,--wrap=tls_record_set_handshake_certificate,--wrap=hkdf_expand"
 PROTOS = ["tlcp", "tls12", "tls13"]
 
 
